@@ -93,21 +93,8 @@ impl ConnectionState {
     //@fn-from broker_conn_state broker/src/broker/conn_state.rs ConnectionState::add_call
     //@fn-from broker_conn_state broker/src/broker/conn_state.rs ConnectionState::remove_call
 
-    // call_data maps with a tuple-pattern closure (outside Verus's subset): contract ASSUMED
-    //@fn broker/src/broker/conn_state.rs ConnectionState::call_data nobody
-        ensures
-            match r {
-                Some(d) => self.calls@.contains_key(caller_serial) && d.0 == self.calls@[caller_serial].0
-                    && *d.1 == self.calls@[caller_serial].1,
-                None => !self.calls@.contains_key(caller_serial),
-            },
-    //@end
-
-    // `.map(|s| s.contains(&event))` on an Option (closure): outside Verus. ASSUMED: subscribed to all events of the service or
-    // to this event
-    //@fn broker/src/broker/conn_state.rs ConnectionState::is_subscribed_to_event nobody
-        ensures r == (self.all_events@.contains(svc_cookie) || self.ev(svc_cookie).contains(event)),
-    //@end
+    //@fn-from broker_conn_state broker/src/broker/conn_state.rs ConnectionState::call_data
+    //@fn-from broker_conn_state broker/src/broker/conn_state.rs ConnectionState::is_subscribed_to_event
 
     // sending only pushes into the connection's outgoing queue (interior mutability); no broker state changes.
     #[verifier::external_body]
